@@ -130,6 +130,12 @@ def _xarray(
     for axes, dct in coord_mapping.items():
         if len(dct) == 1:
             name, (array,) = next(iter(dct.items()))
+        elif len(axes) != 1:
+            # A MultiIndex can only combine 1-D arrays; n-D arrays that share
+            # the same axes each become a coordinate of their own.
+            for name, (array,) in dct.items():
+                coords[name] = (axes, array)
+            continue
         else:
             names = list(dct.keys())
             name = ":".join(names)
